@@ -306,6 +306,9 @@ def resolve_conf(b, layout):
 
 
 def execute(ctx, case):
+  if case.get('python_O') and __debug__:
+    # a replay of a violation that only exists without assert statements: re-run it in such an interpreter
+    return run_optimised_child(ctx, only_case=case)
   b = env.bootstrap()
   env.reset()
   canary = install_canaries()
@@ -359,9 +362,65 @@ def sweep_pairs(ctx):
       yield m, a
 
 
+def child_main():
+  """Run in a second interpreter (started with -O by run()): the canary set over every route; prints the first
+  violation as JSON.  `assert`-based guards vanish there, a legal way to run the daemon."""
+  import json
+  from ..core import Ctx, Violation
+  ctx = Ctx('C13', 'quick', 1)
+  ctx.replaying = True
+  out = {'assert_enabled': False, 'runs': 0, 'violation': None}
+  try:
+    assert False
+  except AssertionError:
+    out['assert_enabled'] = True
+  sys.unraisablehook = lambda *a: None
+  import os
+  one = os.environ.get('VERIF_C13_CASE')
+  try:
+    if one:
+      execute(ctx, dict(json.loads(one), python_O=False))
+      out['runs'] += 1
+    else:
+      for (m, a) in CANARY_TARGETS:
+        for route in ROUTES[:-1]:
+          for nesting, proto in ((0, 2), (2, 4)):
+            execute(ctx, {'kind': 'global', 'module': m, 'name': a, 'route': route, 'nesting': nesting, 'proto': proto})
+            out['runs'] += 1
+  except Violation as v:
+    out['violation'] = {'sig': v.sig, 'message': v.message, 'case': v.case}
+  sys.__stdout__.write('C13CHILD ' + json.dumps(out, default=repr) + '\n')
+
+
+def run_optimised_child(ctx, only_case=None):
+  import json
+  import os
+  import subprocess
+  envv = dict(os.environ)
+  envv.pop('PYTHONOPTIMIZE', None)
+  envv.pop('VERIF_C13_CASE', None)
+  if only_case is not None:
+    envv['VERIF_C13_CASE'] = json.dumps(only_case)
+  p = subprocess.run([sys.executable, '-O', '-c', 'from verif.props import c13; c13.child_main()'], env=envv,
+                     stdout=subprocess.PIPE, stderr=subprocess.STDOUT, timeout=600)
+  lines = [l for l in p.stdout.decode('utf-8', 'replace').splitlines() if l.startswith('C13CHILD ')]
+  if not lines:
+    raise HarnessError('optimised child interpreter produced no result: %s' % p.stdout.decode('utf-8', 'replace')[-800:])
+  res = json.loads(lines[-1][len('C13CHILD '):])
+  if res['assert_enabled']:
+    raise HarnessError('child interpreter was not started with -O')
+  ctx.extra['runs_in_optimised_interpreter'] = res['runs']
+  ctx.evaluations += res['runs']
+  if res['violation']:
+    v = res['violation']
+    ctx.fail(v['sig'], 'interpreter started with -O (assert statements removed): ' + v['message'], dict(v['case'], python_O=True), 'python -O')
+
+
 def run(ctx):
   b = env.bootstrap()
   install_canaries()
+  if (ctx.shard or 0) == 0:
+    run_optimised_child(ctx)
   # hostile programs make CPython emit "Exception ignored" noise (e.g. bytearray with exported buffers)
   sys.unraisablehook = lambda *a: None
   # (a) sweep over loaded modules
